@@ -79,6 +79,11 @@ def build(desc):
         tc.reference_sequence.metadata = {"a": [1, 2]}
     if top == "rawmeta":
         tc.metadata = b"\x00\xff\x80raw"
+    if top == "empties":
+        # explicitly empty strings are values too, distinct from the defaults
+        tc.time_units = ""
+        tc.reference_sequence.data = ""
+        tc.reference_sequence.url = ""
     if desc.get("index"):
         e = tc.edges.num_rows
         tc.indexes = tskit.TableCollectionIndexes(
@@ -450,7 +455,7 @@ def row_choices(tname, maxrows):
 
 
 def all_descs(tier):
-    tops = ["plain", "meta", "units", "refdata", "full", "rawmeta"]
+    tops = ["plain", "meta", "units", "refdata", "full", "rawmeta", "empties"]
     # single tables exhaustively (others empty), crossed with top-level variants and index
     for tname in TNAMES:
         for rows in row_choices(tname, 2):
